@@ -194,3 +194,81 @@ pub fn compile_lib_sym(
         Err(e) => Err(e.format(&a, opts)),
     }
 }
+
+/// facts about the consensus evaluation of (prog, env), observed through clvmr's pre-eval hook:
+/// used by known-finding predicates so that they match exactly the mechanism they excuse
+#[derive(Default, Debug, Clone)]
+pub struct TraceFlags {
+    /// some evaluated sub-expression, its environment or its result is / contains as a direct
+    /// atom an atom of length >= 1 consisting only of zero bytes
+    pub zero_atom_seen: bool,
+    /// some evaluated form has a pair as its operator: ((X) . args)
+    pub pair_head_evaluated: bool,
+    /// some evaluated form has an operator atom with a redundant leading byte
+    pub padded_operator_evaluated: bool,
+}
+
+fn is_zero_atom(a: &Allocator, n: NodePtr) -> bool {
+    match a.sexp(n) {
+        clvmr::allocator::SExp::Atom => {
+            let at = a.atom(n);
+            let b = at.as_ref();
+            !b.is_empty() && b.iter().all(|x| *x == 0)
+        }
+        _ => false,
+    }
+}
+
+fn contains_zero_atom(a: &Allocator, n: NodePtr, budget: &mut usize) -> bool {
+    if *budget == 0 {
+        return false;
+    }
+    *budget -= 1;
+    match a.sexp(n) {
+        clvmr::allocator::SExp::Atom => is_zero_atom(a, n),
+        clvmr::allocator::SExp::Pair(l, r) => contains_zero_atom(a, l, budget) || contains_zero_atom(a, r, budget),
+    }
+}
+
+pub fn consensus_trace(prog: &V, env: &V, max_cost: u64) -> TraceFlags {
+    use std::cell::RefCell;
+    let flags = Rc::new(RefCell::new(TraceFlags::default()));
+    let mut a = Allocator::new();
+    let p = prog.to_node(&mut a);
+    let e = env.to_node(&mut a);
+    {
+        let mut budget = 100_000usize;
+        if contains_zero_atom(&a, p, &mut budget) || contains_zero_atom(&a, e, &mut budget) {
+            flags.borrow_mut().zero_atom_seen = true;
+        }
+    }
+    let f2 = flags.clone();
+    let pre: clvmr::run_program::PreEval = Box::new(move |a: &mut Allocator, prog: NodePtr, _env: NodePtr| {
+        if let clvmr::allocator::SExp::Pair(op, _) = a.sexp(prog) {
+            match a.sexp(op) {
+                clvmr::allocator::SExp::Pair(_, _) => f2.borrow_mut().pair_head_evaluated = true,
+                clvmr::allocator::SExp::Atom => {
+                    let at = a.atom(op);
+                    let b = at.as_ref();
+                    if b.len() >= 2 && ((b[0] == 0 && b[1] & 0x80 == 0) || (b[0] == 0xff && b[1] & 0x80 != 0)) {
+                        f2.borrow_mut().padded_operator_evaluated = true;
+                    }
+                }
+            }
+        }
+        let f3 = f2.clone();
+        let post: Box<clvmr::run_program::PostEval> = Box::new(move |a: &mut Allocator, r: Option<NodePtr>| {
+            if let Some(r) = r {
+                let mut budget = 2000usize;
+                if contains_zero_atom(a, r, &mut budget) {
+                    f3.borrow_mut().zero_atom_seen = true;
+                }
+            }
+        });
+        Ok(Some(post))
+    });
+    let d = ChiaDialect::new(NO_UNKNOWN_OPS | ENABLE_KECCAK_OPS_OUTSIDE_GUARD);
+    let _ = clvmr::run_program::run_program_with_pre_eval(&mut a, &d, p, e, max_cost, Some(pre));
+    let out = flags.borrow().clone();
+    out
+}
